@@ -132,13 +132,21 @@ def run_check(pid, title, body, argv=None, configs=("real", "complex")):
             for t in sub.trusted:
                 if t not in chk.trusted:
                     chk.trusted.append(t)
-        # ---- vacuity: frozen instance counts
+        # ---- vacuity: frozen instance counts.  A shortfall alone is "analysis broken" (exit 2); when some rule
+        # reports a definite violation at the same time (e.g. a deleted broadcast both lowers a count and breaks the
+        # sync-set rule) the violation is the verdict and the shortfall is printed as a note.
+        shortfalls = []
         for r in chk.rules:
             for cfgname in configs:
                 n = r.cfg_counts.get(cfgname, 0)
                 if n < r.expect:
-                    raise AnalysisBroken("rule %s (%s): %d instances in configuration %s, frozen minimum is %d" % (
+                    shortfalls.append("rule %s (%s): %d instances in configuration %s, frozen minimum is %d" % (
                         r.rid, r.title, n, cfgname, r.expect))
+        anyviol = any(i["status"] != "ok" for r in chk.rules for i in r.instances)
+        if shortfalls and not anyviol:
+            raise AnalysisBroken(shortfalls[0])
+        for sfl in shortfalls:
+            print("  note: instance count below frozen minimum: " + sfl)
     except AnalysisBroken as e:
         print("ANALYSIS-BROKEN property=%s: %s" % (pid, e))
         sys.exit(2)
